@@ -11,7 +11,7 @@ EVIDENCE = dict(
     level="model_checking",
     rule="select: every sequence of <= 2 builder calls (Pages with <= 2 arguments from 0..4, PageRange over 0..4 incl. reversed) on a "
          "3-page document, expectation = set semantics computed by PageSelect.tla, checked through Text(), Document() page numbers "
-         "and Chunks() page metadata. lifecycle: every history of 4 operations (derive with Pages(4) / Pages(5) / PageRange(1,3) / Pages(99) / ByColumn, PageCount, "
+         "and Chunks() page metadata; selectopts: every sequence of <= 2 builder calls over {1,2,4,5,6} on a 5-page document (cover page without the running header, last page without the footer, one two-column page) x 10 option combinations (ExcludeHeaders / ExcludeFooters / ExcludeHeadersAndFooters / ByColumn / JoinParagraphs / PreserveLayout and pairs), options chained before and after the selection, expectation = the tokens the whole document gives for the selected pages under the same options. lifecycle: every history of 4 operations (derive with Pages(4) / Pages(5) / PageRange(1,3) / Pages(99) / ByColumn, PageCount, "
          "Text, Close) over <= 4 extractors from Lifecycle.tla replayed on real extractors with /proc/self/fd counted after each step; recorded histories "
          "validated by LifecycleTrace.tla. Non-trivial = selection other than 'all pages' / history with >= 2 operations.",
     assumptions=["pdfdoc renders the 3-page document faithfully", "/proc/self/fd counts the process's descriptors"],
@@ -24,6 +24,7 @@ def run(ctx):
     ctx.tlc("LifecycleMC", "Lifecycle_mc_impl.cfg", expect_violation=True)     # clone() shares the reader pointer
     ctx.tlc("LifecycleMC", "Lifecycle_mc_alias.cfg", expect_violation=True)    # clone() reuses the page slice (Go append aliasing)
     sel = ctx.tlc("PageSelectMC", "PageSelect_gen.cfg" if q else "PageSelect_gen_thorough.cfg", workers=1, collect=True, timeout=1800)
+    selo = ctx.tlc("PageSelectMC", "PageSelect_gen_opts.cfg", workers=1, collect=True, timeout=1800)
     life = ctx.tlc("LifecycleMC", "Lifecycle_gen.cfg" if q else "Lifecycle_gen_thorough.cfg", workers=1, collect=True, count=False, timeout=1800)
     if not sel["cases"] or not life["cases"]:
         raise vlib.MachineryError("no cases")
@@ -34,6 +35,8 @@ def run(ctx):
     ctx.sample(life["cases"][len(life["cases"]) // 2])
     r1 = absorb(ctx, ctx.run_driver(["c10", "select"], sel["cases"]))
     r2 = absorb(ctx, ctx.run_driver(["c10", "life"], life["cases"]))
+    ctx.extra["selection_cases_under_options"] = len(selo["cases"])
+    r1 += absorb(ctx, ctx.run_driver(["c10", "selectopts"], selo["cases"]))
     mach = [r for r in r1 + r2 if (r.get("sig") or "").startswith("MACHINERY")]
     if mach:
         raise vlib.MachineryError(mach[0]["what"])
@@ -55,4 +58,4 @@ def run(ctx):
 
 def replay(ctx, rp):
     c = (rp.get("replay") or {}).get("case") or {}
-    return replay_generic(ctx, rp, ["c10", "life" if "log" in c else "select"])
+    return replay_generic(ctx, rp, ["c10", "life" if "log" in c else ("selectopts" if "opts" in c else "select")])
